@@ -36,6 +36,11 @@ def dispatch (op : String) (f : List Text) : String :=
       | none => "err"
       | some c => s!"ok disabled=[{",".intercalate (c.disabled.map String.ofList)}] ip={tf c.ignorePrerelease} ri={c.refreshInterval}"
   | "ca.run", f => caRun f
+  | "ca.locate", [content, version, hash, so, eo, line, col] =>
+    let p : PkgInfo := ⟨"x".toList, version, (match hash with | 'S' :: h => some h | _ => none), natOfText so, natOfText eo, natOfText line, natOfText col, none⟩
+    match Bump.locate content p with
+    | none => "none"
+    | some q => s!"{q.startOffset} {q.endOffset} {q.line} {q.column} {hex q.version}"
   | "http.fetch", f => httpFetch f
   | "http.tagsha", f => httpTagSha f
   | "bump.ok", label :: cur :: t :: vs => tf (Spec.BumpSpec.acceptable (String.ofList label) cur t vs)
